@@ -14,7 +14,18 @@ from_msgpack + as_string (exactly what the real classes do), topics are matched
 by byte prefix as zmq does, callback exceptions are swallowed and counted as
 the real listener thread does.  The network transports one pending publication
 at a time, chosen by the case's schedule, and stops at a hard bound so that a
-circulating implementation terminates."""
+circulating implementation terminates.
+
+Life-cycle cases (kind 'life'): sequences of connect / round / close events of the
+client (side 0, owner of the session id) and pilots.  Real code driven in
+addition: Session._start_proxy (environment / embedded proxy via _run_proxy),
+Session._connect_proxy, Session.close(); Proxy.__init__ (request table),
+Proxy._register / _worker / _lookup / _unregister / stop.  Replaced: ru.zmq.Client
+(synchronous dispatch into the real Proxy's request table), ru.zmq.Server
+(__init__/start/wait), ru.zmq.PubSub / Queue (in-memory bridges whose stop()
+disposes what they hold), multiprocessing in proxy.py (the worker runs in a
+thread), the component manager (closing it ends the side's components and
+local bridges).  After close() the side's process is considered gone."""
 import itertools
 import os
 import threading
@@ -386,25 +397,37 @@ class C16(Prop):
     header = 'From RP Require Import Fwd.Model Fwd.Oracle Fwd.Life Fwd.LifeOracle.'
     clauses = ['exactly_once', 'not_back_to_origin', 'unflagged_stays_local', 'no_stray_delivery', 'no_circulation',
                'only_owner_unregisters']
-    corr_name = ('Fwd.Model(network/pubsub_fwd/crosswire_proxy/source_msg) vs Session.crosswire_pubsub/_crosswire_proxy/'
-                 '_publish_cfg/__init__ + Client/AgentComponent.advance/publish on an in-memory pubsub network')
+    corr_name = ('Fwd.Model(network/pubsub_fwd/crosswire_proxy/source_msg) + Fwd.Life(life_run: connect/close/round) vs '
+                 'Session.crosswire_pubsub/_crosswire_proxy/_publish_cfg/__init__/_start_proxy/_connect_proxy/close + '
+                 'Proxy._register/_lookup/_unregister + Client/AgentComponent.advance/publish on an in-memory pubsub network')
     rule = ('corpus; every (module, from_proxy, origin, fwd) input of the real pubsub_fwd closures; every single post '
             '(side, channel, origin marker in {absent, own, other side, unknown}, fwd in {absent, False, True}, plus '
             'advance() and typed messages with default/explicit fwd) on networks of 1 client + 0..3 pilots; random '
             'batches of 1-5 posts on 0..6 pilots (thorough: ..12, all ordered pairs of raw posts on 2 pilots) under a '
-            'seed-determined transport schedule; non-trivial = a network with >= 1 pilot in which some message was '
-            'delivered on a side other than the one it was posted on')
+            'seed-determined transport schedule; life cycles: client + 2 pilots with every order of the three closes and '
+            'messages in between (external and embedded proxy), pilots that come too early / restart / come after the '
+            'client closed, 150 (thorough 2500) random histories of connect / close / round events over up to 4 (6) '
+            'pilots; non-trivial = a network with >= 1 pilot in which some message was delivered on a side other than '
+            'the one it was posted on (life cycles: such a message posted after some pilot has closed)')
     trusted = [
         'correspondence harness harness/c16.py: real Session.__init__/_init_primary/_init_agent_0/_publish_cfg/'
         '_crosswire_proxy/crosswire_pubsub and real Client/AgentComponent.advance/publish/register_* driven on stub '
         'sessions (config, registry, proxy registration, component start patched out); ru.zmq.Publisher/Subscriber '
         'replaced by an in-memory network that serialises with ru to_msgpack/from_msgpack per subscriber socket, '
         'matches topics by prefix and swallows callback exceptions like the listener thread; compared inside Coq',
-        'modelled, not verified: zmq delivery and ordering, the proxy process (proxy.py) and its bridges, heartbeats, '
+        'life-cycle cases: real Session._start_proxy/_run_proxy/_connect_proxy/close and real Proxy.__init__/_register/'
+        '_worker/_lookup/_unregister/stop; ru.zmq.Client/Server/PubSub/Queue and multiprocessing replaced by in-memory '
+        'stand-ins (synchronous request dispatch into the real request table, bridges whose stop() disposes what they '
+        'hold, worker in a thread), the component manager replaced by one that ends the side\'s components and local '
+        'bridges; a closed side\'s process is considered gone',
+        'modelled, not verified: zmq delivery and ordering, the real zmq bridges of the proxy and its monitor thread / '
+        'heartbeat timeout, messages in flight while a session closes (life-cycle events happen at silent moments), '
         'the task queues crosswired by the task manager, the contents of messages other than origin/fwd',
     ]
     assumptions = ['module names (client, pilot ids) are pairwise distinct',
                    'every connected side runs _crosswire_proxy exactly once against the same proxy channels',
+                   'one client session per session id; sessions connect and close while no message is in flight',
+                   'the proxy does not time the session out (heartbeats arrive)',
                    'zmq delivers every publication to every connected subscriber exactly once']
     widen_cases = 1500
     impl_timeout = 240          # a mutant that loops inside a callback must not stall the check
